@@ -83,20 +83,23 @@ Definition ctype (h : head) : N :=
 Definition pat_name (o : obj) : option (bytes * option bytes) :=
   if o_matched o then assoc_rids (o_rids o) (c_rmap c) else None.
 
-Definition VO (x : option N) : V := VOpt VN x.
+(* canonical rendering with list and number nodes only (string literals are what makes the case
+   files slow to parse): an option is VL [] / VL [x], a pair is VL [a; b] *)
+Definition VO (x : option N) : V := match x with None => VL [] | Some n => VL [VN n] end.
+Definition VOB (x : option bytes) : V := match x with None => VL [] | Some b => VL [VBytes b] end.
 Definition dump (o : obj) : V :=
   let h := o_head o in
-  VT "r" [VN (o_id o); VN (h_id h);
-          VBytes (h_method h); VBytes (h_uri h); VN (h_version h);
-          VL (map (fun kv => VT "h" [VBytes (fst kv); VBytes (snd kv)]) (h_headers h));
-          VO (h_peer h); VN (ctype h);
-          VBytes (path_str o); VBytes (unprocessed o);
-          VL (map (fun s => VT "p" [VBytes (fst s); VBytes (seg_value o (snd s))]) (o_segs o));
-          VOpt VBytes (option_map fst (pat_name o));
-          VOpt VBytes (match pat_name o with Some (_, n) => n | None => None end);
-          VL (map (fun t => VO (ext_get t (o_exts o))) [0; 1; 2; 3; 4; 5]);
-          VL (map (fun t => VO (resolve t (rev (o_app_data o)))) [0; 1; 2; 3]);
-          VL (map (fun t => VO (match o_conn o with Some cn => ext_get t cn | None => None end)) [0; 1])].
+  VL [VN (o_id o); VN (h_id h);
+      VBytes (h_method h); VBytes (h_uri h); VN (h_version h);
+      VL (map (fun kv => VL [VBytes (fst kv); VBytes (snd kv)]) (h_headers h));
+      VO (h_peer h); VN (ctype h);
+      VBytes (path_str o); VBytes (unprocessed o);
+      VL (map (fun s => VL [VBytes (fst s); VBytes (seg_value o (snd s))]) (o_segs o));
+      VOB (option_map fst (pat_name o));
+      VOB (match pat_name o with Some (_, n) => n | None => None end);
+      VL (map (fun t => VO (ext_get t (o_exts o))) [0; 1; 2; 3; 4; 5]);
+      VL (map (fun t => VO (resolve t (rev (o_app_data o)))) [0; 1; 2; 3]);
+      VL (map (fun t => VO (match o_conn o with Some cn => ext_get t cn | None => None end)) [0; 1])].
 
 Record dst := mkD { d_st : st; d_stash : list N; d_held : list N }.
 
@@ -117,7 +120,7 @@ Definition exec (d : dst) (x : sstep) : R (dst * V) :=
       let s1 := fst (requestC s0 q) in
       (* routing and middleware, then the handler's HttpRequest argument (FromRequest = clone) *)
       rbind (steps s1 (map (act_ev k) acts ++ [EClone k])) (fun s2 =>
-      let v := match find_live k (s_live s2) with Some en => dump (l_obj en) | None => VT "lost" [] end in
+      let v := match find_live k (s_live s2) with Some en => dump (l_obj en) | None => VL [VN 0] end in
       (* the handler: inserts extensions, perhaps stashes a clone, returns (its argument dies);
          then the caller drops the response's HttpRequest unless it holds it *)
       rbind (steps s2 (map (fun tv => EExt k (fst tv) (snd tv)) ins
@@ -128,10 +131,10 @@ Definition exec (d : dst) (x : sstep) : R (dst * V) :=
                   (if hold then d_held d ++ [k] else d_held d), v)))
   | SClearStash =>
       rbind (steps (d_st d) (map EDrop (d_stash d))) (fun s' =>
-      Val (mkD s' [] (d_held d), VT "ok" []))
+      Val (mkD s' [] (d_held d), VL []))
   | SReleaseHeld =>
       rbind (steps (d_st d) (map EDrop (d_held d))) (fun s' =>
-      Val (mkD s' (d_stash d) [], VT "ok" []))
+      Val (mkD s' (d_stash d) [], VL []))
   end.
 
 Fixpoint exec_all (d : dst) (xs : list sstep) : list V :=
@@ -139,7 +142,7 @@ Fixpoint exec_all (d : dst) (xs : list sstep) : list V :=
   | [] => []
   | x :: r => match exec d x with
               | Val (d', v) => v :: exec_all d' r
-              | Panic => [VT "panic" []]
+              | Panic => [VL [VN 1]]
               end
   end.
 End Drive.
